@@ -28,6 +28,24 @@ theorem owned_date (env : Env) (c : Caller) (r : Req) :
   unfold ownedHeaders
   exact ⟨count_insert_self _ _ _, get?_insert_self _ _ _⟩
 
+theorem names_not_te : claimsHeader ≠ teHeader ∧ dateHeader ≠ teHeader ∧ authHeader ≠ teHeader := by decide
+
+theorem signed_claims (env : Env) (c : Caller) (r : Req) :
+    count claimsHeader (signedHeaders r (ownedHeaders env c r)) = 1 ∧
+    get? claimsHeader (signedHeaders r (ownedHeaders env c r)) = some (claimsValue c.elevated) := by
+  unfold signedHeaders
+  split
+  · rw [count_remove_other _ _ _ names_not_te.1, get?_remove_other _ _ _ names_not_te.1]; exact owned_claims env c r
+  · exact owned_claims env c r
+
+theorem signed_date (env : Env) (c : Caller) (r : Req) :
+    count dateHeader (signedHeaders r (ownedHeaders env c r)) = 1 ∧
+    get? dateHeader (signedHeaders r (ownedHeaders env c r)) = some env.now := by
+  unfold signedHeaders
+  split
+  · rw [count_remove_other _ _ _ names_not_te.2.1, get?_remove_other _ _ _ names_not_te.2.1]; exact owned_date env c r
+  · exact owned_date env c r
+
 /-- **C05(a,b)** in every relayed request — for every client header list, containing any number of
 copies of the proxy-owned names in any letter case with any values — the host sees exactly one
 claims header, stating the attributed caller's elevation, and exactly one date header carrying the
@@ -42,12 +60,15 @@ theorem claims_and_date_unique_and_true (env : Env) (conn : Conn) (r : Req) (u :
   obtain ⟨_, _, _, _, hcase⟩ := forwardStage_forward mac env caller r u hfwd
   have hcl := owned_claims env caller r
   have hdt := owned_date env caller r
-  rcases hcase with ⟨hh, _, _⟩ | ⟨guid, key, si, _, _, _, _, hh, _⟩
+  have hcl' := signed_claims env caller r
+  have hdt' := signed_date env caller r
+  rcases hcase with ⟨hh, _, _⟩ | ⟨hh, _, _⟩ | ⟨guid, key, si, _, _, _, _, hh, _⟩
   · rw [hh]; exact ⟨hcl.1, hcl.2, hdt.1, hdt.2⟩
+  · rw [hh]; exact ⟨hcl'.1, hcl'.2, hdt'.1, hdt'.2⟩
   · rw [hh]
     rw [count_insert_other _ _ _ _ names_distinct.2.1, get?_insert_other _ _ _ _ names_distinct.2.1,
       count_insert_other _ _ _ _ names_distinct.2.2, get?_insert_other _ _ _ _ names_distinct.2.2]
-    exact ⟨hcl.1, hcl.2, hdt.1, hdt.2⟩
+    exact ⟨hcl'.1, hcl'.2, hdt'.1, hdt'.2⟩
 
 /-- **C05(c)** on a request the proxy signs, exactly one authorization header reaches the host and it
 is the proxy's (`scheme keyId mac`): no client-supplied copy survives. -/
@@ -58,7 +79,8 @@ theorem client_authorization_never_forwarded_when_signed (env : Env) (conn : Con
       get? authHeader u.headers = some (authScheme ++ [' '] ++ guid ++ [' '] ++ mac key si) := by
   obtain ⟨ip, port, caller, rules, _, hc, _, _, _, _, _, hfwd⟩ := handle_forward mac env conn r u h
   obtain ⟨_, _, _, _, hcase⟩ := forwardStage_forward mac env caller r u hfwd
-  rcases hcase with ⟨_, hn, _⟩ | ⟨guid', key, si', hk, _, _, _, hh, hsg⟩
+  rcases hcase with ⟨_, hn, _⟩ | ⟨_, hn, _⟩ | ⟨guid', key, si', hk, _, _, _, hh, hsg⟩
+  · rw [hn] at hs; cases hs
   · rw [hn] at hs; cases hs
   · rw [hsg] at hs; cases hs
     exact ⟨key, hk, by rw [hh]; exact count_insert_self _ _ _, by rw [hh]; exact get?_insert_self _ _ _⟩
